@@ -356,6 +356,9 @@ func genC08(seed, index uint64, tier string) *Plan {
 	if g.Chance(0.3) {
 		// file names that sort differently byte-wise and case-folded: the order of same-kind documents follows the byte order
 		files = []string{"a.yaml", "B.yaml", "Z/c.yaml", "m.yaml", "web_config.yaml", "webConfig.yaml", "Zeta.yaml"}
+	} else if g.Chance(0.3) {
+		// only a file whose OWN name starts with an underscore is a partial; a directory so named holds ordinary templates
+		files = []string{"a.yaml", "_gen/b.yaml", "z/_parts/c.yaml", "m.yaml"}
 	}
 	n := 2 + g.N(10)
 	counters := map[string]int{}
